@@ -10,6 +10,9 @@ import (
 )
 
 // packages whose SSA bodies we execute; everything else needs an intrinsic
+// maxCallDepth bounds the depth of the symbolic call stack (deepest real job: a few dozen frames).
+const maxCallDepth = 400
+
 func (e *Engine) executable(fn *ssa.Function) bool {
 	if fn.Blocks == nil {
 		return false
@@ -264,6 +267,14 @@ func (e *Engine) runFn(st *State, fn *ssa.Function, bindings, args []Value, dst 
 		nf.regs[fvv] = bindings[i]
 	}
 	depth := len(st.frames)
+	if depth > maxCallDepth {
+		// the executor mirrors the program's recursion on its own stack: a bound on the call depth is a loop bound like
+		// Unwind, and reaching it makes the job inconclusive ("unwind"), never passed
+		e.fail(st, "unwind", fmt.Sprintf("call depth exceeds %d frames calling %s (unbounded recursion?)", maxCallDepth, fn))
+		st.dead = true
+		st.why = "call depth bound"
+		return nil
+	}
 	basePC := len(st.pc)
 	mark := len(st.allocLog)
 	st.frames = append(st.frames, nf)
